@@ -15,7 +15,6 @@ type (
 	Once      = vsched.Once
 	Locker    = sync.Locker
 	Map       = sync.Map
-	Pool      = sync.Pool
 )
 
 func NewCond(l Locker) *Cond { return vsched.NewCond(l) }
@@ -25,3 +24,37 @@ func OnceFunc(f func()) func() { return vsched.OnceFunc(f) }
 func OnceValue[T any](f func() T) func() T { return vsched.OnceValue(f) }
 
 func OnceValues[T1, T2 any](f func() (T1, T2)) func() (T1, T2) { return vsched.OnceValues(f) }
+
+// Pool is a deterministic sync.Pool: LIFO, never drops an item, emptied at the start of every execution
+// (a legal Pool behaviour; the real one depends on the GC and on per-P caches, which the scheduler does not control).
+type Pool struct {
+	New   func() any
+	items []any
+	epoch uint64
+}
+
+func (p *Pool) sync() {
+	if e := vsched.Epoch(); e != p.epoch {
+		p.items, p.epoch = nil, e
+	}
+}
+
+func (p *Pool) Get() any {
+	p.sync()
+	if n := len(p.items); n > 0 {
+		x := p.items[n-1]
+		p.items = p.items[:n-1]
+		return x
+	}
+	if p.New != nil {
+		return p.New()
+	}
+	return nil
+}
+
+func (p *Pool) Put(x any) {
+	p.sync()
+	if x != nil {
+		p.items = append(p.items, x)
+	}
+}
